@@ -144,6 +144,10 @@ def set_field(msg, fd, variant=0, depth=2, seed=0):
             return False
         getattr(msg, fd.name).extend(vals[:1] if variant == 0 else vals + vals[:1])
         return True
+    if variant == len(vals) and fd.has_presence and fd.containing_oneof is not None:
+        # explicit presence: the default value, explicitly set, is observable on the wire
+        setattr(msg, fd.name, fd.default_value if fd.type != FD.TYPE_ENUM else fd.enum_type.values[0].number)
+        return True
     if variant >= len(vals):
         return False
     setattr(msg, fd.name, vals[variant])
